@@ -289,9 +289,13 @@ StepCtl(M, c, f, ins) ==
               LET mem == MemOf(c, f.inst)
                   seg == M.data[ins[2] + 1].bytes
                   d == AddrOf(Peek(f, 2).b)  s == AddrOf(Peek(f, 1).b)  n == AddrOf(Peek(f, 0).b)
-              IN  IF d < 0 \/ s < 0 \/ n < 0 \/ ~InBounds(mem, d, n) \/ s + n > Len(seg) THEN Stop(c, "undefined")
+                  \* a dropped segment has length zero: only the empty copy from its start is inside it
+                  gone == ins[2] \in c.store.insts[f.inst].dropped
+              IN  IF d < 0 \/ s < 0 \/ n < 0 \/ ~InBounds(mem, d, n) \/ s + n > (IF gone THEN 0 ELSE Len(seg)) THEN Stop(c, "undefined")
                   ELSE SetTop(SetMem(c, f.inst, WrBytes(mem, d, SubSeq(seg, s + 1, s + n))),
                               [next EXCEPT !.stack = DropLast(f.stack, 3)])
+          [] op = "data.drop" ->
+              [SetTop(c, next) EXCEPT !.store.insts[f.inst].dropped = @ \cup {ins[2]}]
           [] op = "atomic.fence" -> SetTop(c, next)
 
 Step(M, c) ==
@@ -389,7 +393,7 @@ Instantiate(M, store, binds) ==
         st4 == IF M.table.present THEN [st3 EXCEPT !.tables = @ \o <<NewTable(M.table.min)>>] ELSE st3
         st5 == IF taddr = 0 THEN st4
                ELSE [st4 EXCEPT !.tables[taddr] = ApplyElems(M, st4, gs.g, st4.tables[taddr], inst, 1)]
-    IN  [st5 EXCEPT !.insts = @ \o <<[mem |-> maddr, table |-> taddr, globals |-> gs.g]>>]
+    IN  [st5 EXCEPT !.insts = @ \o <<[mem |-> maddr, table |-> taddr, globals |-> gs.g, dropped |-> {}]>>]
 
 \* Segments must lie inside their memory / table, otherwise instantiation fails in the
 \* specification (and is outside what the properties quantify over).
